@@ -17,11 +17,30 @@ Definition run_body (d : decoration) : res bytes :=
   | DVal id u => if u then Ok [id] else Err
   end.
 
-Record c17_case := mkC17 {
+(* The tables of one world all have the same shape: the good table, or one
+   without columns (no rows at all; separators only; a row left empty; rows of
+   no items).  The renderer past its guard then gives several palette
+   decorations the same bytes (nothing to draw but the frame), so for such a
+   world an output is named by the SMALLEST palette decoration producing it,
+   and [rep] maps every palette decoration to that representative (pairs are
+   given only where it differs from the decoration itself). *)
+Definition rep_of (rep : list (N * N)) (id : N) : N :=
+  match find (fun p => N.eqb (fst p) id) rep with Some p => snd p | None => id end.
+
+Definition run_body_rep (rep : list (N * N)) (d : decoration) : res bytes :=
+  match d with
+  | DEmpty => Err
+  | DVal id u => if u then Ok [rep_of rep id] else Err
+  end.
+
+Record c17_case := mkC17s {
+  c_rep : list (N * N);    (* output classes of the world's table shape (empty for the good table) *)
   c_seq : bool;            (* sequential history (exact comparison) or time-stamped concurrent one *)
   c_bad : bool;            (* the child reported a data race / crashed / the unstamped pass was inconsistent *)
   c_init : registry;       (* the registry as the library initialised it *)
   c_evs : list event }.
+
+Definition mkC17 := mkC17s [].
 
 Definition c17_trace (c : c17_case) : list (nat * op) := map (fun e => (e_g e, e_op e)) (c_evs c).
 
@@ -41,18 +60,18 @@ Definition C17_ok (c : c17_case) : bool :=
   negb (c_bad c)
   && init_ok (c_init c)
   && (if c_seq c
-      then seq_ok run_body (c_init c) (c17_trace c) (map e_obs (c_evs c))
-      else C17_obs_ok run_body (c_init c) (c_evs c)).
+      then seq_ok (run_body_rep (c_rep c)) (c_init c) (c17_trace c) (map e_obs (c_evs c))
+      else C17_obs_ok (run_body_rep (c_rep c)) (c_init c) (c_evs c)).
 
 Definition C17_corr (c : c17_case) : bool :=
   if c_bad c then true
   else if c_seq c
-  then list_eqb obs_eqb (run run_body (init_state (c_init c)) (c17_trace c)) (map e_obs (c_evs c))
+  then list_eqb obs_eqb (run (run_body_rep (c_rep c)) (init_state (c_init c)) (c17_trace c)) (map e_obs (c_evs c))
        && list_eqb bytes_eqb (names (c_init c)) (map fst (c_init c))     (* sort oracle: the dump is the library's own sorted listing *)
   else true.   (* a concurrent run has no single model run to compare with; the checker above is the judge *)
 
 Definition C17_case (c : c17_case) : N := code (C17_corr c) (C17_ok c).
 
 Definition C17_model (c : c17_case) : list obs * list bool :=
-  (if c_seq c then run run_body (init_state (c_init c)) (c17_trace c) else [],
-   map (event_ok run_body (c_init c) (c_evs c)) (c_evs c)).
+  (if c_seq c then run (run_body_rep (c_rep c)) (init_state (c_init c)) (c17_trace c) else [],
+   map (event_ok (run_body_rep (c_rep c)) (c_init c) (c_evs c)) (c_evs c)).
